@@ -11,8 +11,12 @@ rm -rf "$D"; git clone -q /repo "$D" || exit 3
 (cd /repo && git ls-files --others --exclude-standard | while read f; do mkdir -p "$D/$(dirname $f)"; cp "$f" "$D/$f"; done)
 if ! git -C "$D" apply "$DIFF"; then echo "$NAME: APPLY-FAILED"; rm -rf "$D"; exit 3; fi
 TC=/root/go/pkg/mod/golang.org/toolchain@v0.0.1-go1.26.6.linux-amd64/bin/go
+# RUNMUT_FAST=1 skips the build and baseline-test confirmation (for re-running
+# mutants that were confirmed when they were written).
+if [ -z "$RUNMUT_FAST" ]; then
 if ! (cd "$D" && GOTOOLCHAIN=local GOSUMDB=off GOPROXY=off GOFLAGS=-mod=mod $TC build ./pkg/... ./cmd/bb_scheduler ./cmd/bb_worker ./cmd/bb_runner ./cmd/bb_noop_worker ./cmd/bb_virtual_tmp >/dev/null 2>"$D/.build.err"); then echo "$NAME: DOES-NOT-COMPILE"; head -5 "$D/.build.err"; rm -rf "$D"; exit 3; fi
 if ! (cd "$D" && GOTOOLCHAIN=local GOSUMDB=off GOPROXY=off GOFLAGS=-mod=mod $TC test -vet=off -count=1 ./pkg/filesystem/access/... ./pkg/scheduler/invocation/... ./pkg/scheduler/platform/... >/dev/null 2>&1); then echo "$NAME: BASELINE-TESTS-FAIL"; rm -rf "$D"; exit 3; fi
+fi
 cd /verif
 OUT=$(VERIF_REPO="$D" VERIF_WORK_SUFFIX="-mut-$NAME" ./check "$ID" "$TIER" 2>&1)
 RC=$?
